@@ -3,7 +3,7 @@ import re
 from lib import common
 from lib.common import Broken
 
-THEOREMS = ["C17_lookups_fresh", "C17_lookups_covered", "C17_fresh_sound", "C17_private_partial"]
+THEOREMS = ["C17_lookups_fresh", "C17_lookups_covered", "C17_fresh_sound", "C17_lookups_return_fresh_objects", "C17_private_partial"]
 
 
 def run(res, args):
@@ -30,7 +30,7 @@ def run(res, args):
                    samples=["veproduct.GetStringMap x overwrite", "SolarOffReasonsFactoryType.Fields(raw=0) x delete",
                             "GetRegisterListByProduct(0xa056) x truncate-and-append -> GetRegisterListByProduct(0xa053)"],
                    judge_failures=nf)
-    res.partial.append("register lists (veregister) are covered by the harness run only; the inter-procedural step of the alias theorem is stated relative to an oracle for callee results")
+    res.partial.append("register lists (veregister) are covered by the harness run only")
     for l in out.splitlines():
         if l.startswith("COPY-FAIL"):
             res.add_violation(l[10:], key="C17:" + re.sub(r"\d+ bytes.*", "", l[10:])[:150], input=l[10:])
